@@ -388,7 +388,7 @@ impl<'a, K: KeyT, S: Sut<K>> Runner<'a, K, S> {
                 base_obs = Some(o);
             }
             if self.fl.clone_ev {
-                self.clone_pair(&mut c, op, &mut ids);
+                self.clone_pair(&mut c, op, &mut ids, false);
                 self.end_test(c, &mut ids);
                 continue;
             }
@@ -465,10 +465,11 @@ impl<'a, K: KeyT, S: Sut<K>> Runner<'a, K, S> {
     }
 
     /// C16: clone, compare, run `op` on both, then run it on the original only
-    fn clone_pair(&mut self, c: &mut S, op: &Value, ids: &mut AddrIds) {
+    /// (`chained`: the pre-state of the clone record is the previous event's state, not the last jump)
+    fn clone_pair(&mut self, c: &mut S, op: &Value, ids: &mut AddrIds, chained: bool) {
         let r = catch_unwind(AssertUnwindSafe(|| qalloc::tracked(|| c.try_clone())));
         let Ok(Some(mut d)) = r else {
-            let ev = json!({"op":"clone","panic": r.is_err(), "chain": false, "obs": {}, "obs2": {}, "unsupported": r.is_ok()});
+            let ev = json!({"op":"clone","panic": r.is_err(), "chain": chained, "obs": {}, "obs2": {}, "unsupported": r.is_ok()});
             self.out.line(&ev);
             self.stats.events += 1;
             return;
@@ -476,7 +477,7 @@ impl<'a, K: KeyT, S: Sut<K>> Runner<'a, K, S> {
         let mut ids2 = AddrIds::new();
         let o1 = observe(c, &self.uni, &self.fl, ids);
         let o2 = observe(&d, &self.uni, &self.fl, &mut ids2);
-        self.out.line(&json!({"op":"clone","panic":false,"chain":false,"obs":o1,"obs2":o2}));
+        self.out.line(&json!({"op":"clone","panic":false,"chain":chained,"obs":o1,"obs2":o2}));
         // the same operation on both
         let (mut e1, p1) = self.call(c, op);
         let (e2, p2) = self.call(&mut d, op);
@@ -515,9 +516,14 @@ impl<'a, K: KeyT, S: Sut<K>> Runner<'a, K, S> {
         self.stats.tests += 1;
         let mut ids = AddrIds::new();
         self.jump(&c, &mut ids);
-        for op in hist {
+        for (i, op) in hist.iter().enumerate() {
             if !c.c_empty() {
                 self.stats.nontrivial += 1;
+            }
+            // C16 on long histories: every 37th step (and the last one) is done on the cache AND on a fresh clone of it
+            if self.fl.clone_ev && (i % 37 == 36 || i + 1 == hist.len()) {
+                self.clone_pair(&mut c, op, &mut ids, true);
+                continue;
             }
             let (ev, panicked) = self.call(&mut c, op);
             self.finish_event(ev, &c, &mut ids, true);
@@ -568,18 +574,57 @@ impl Rng {
     }
 }
 
-/// random history over the specification's alphabet: skewed keys so that hits, ghost hits and
-/// re-puts happen; `ro` entries are skipped.
+/// random history over the specification's alphabet; `ro` entries are skipped.  Every history draws one of four
+/// workload profiles so that structured situations (a hot set over a cold stream, scans of fresh keys, phase
+/// changes, a warm-up that fills every list) occur, not only uniform noise:
+///   0 uniform   1 hot set (3 keys get 70% of the keyed operations)   2 scans (bursts of puts of consecutive keys)
+///   3 two phases (first half on the lower half of the keys, second half on the upper half)
 pub fn random_hist(ops: &[Value], len: usize, rng: &mut Rng) -> Vec<Value> {
     let real: Vec<&Value> = ops.iter().filter(|o| o["op"] != "ro").collect();
     let puts: Vec<&Value> = real.iter().copied().filter(|o| o["op"].as_str().map_or(false, |s| s.contains("put"))).collect();
+    let mut keys: Vec<u64> = real.iter().filter_map(|o| o.get("k").and_then(|k| k.as_u64())).collect();
+    keys.sort();
+    keys.dedup();
+    let profile = rng.below(4);
+    let hot: Vec<u64> = (0..3).map(|_| keys.get(rng.below(keys.len() as u64) as usize).copied().unwrap_or(0)).collect();
+    let key_ok = |o: &Value, want: &dyn Fn(u64) -> bool| o.get("k").and_then(|k| k.as_u64()).map_or(true, want);
     let mut h = vec![];
-    for _ in 0..len {
-        let pick = if !puts.is_empty() && rng.below(100) < 45 {
-            puts[rng.below(puts.len() as u64) as usize]
-        } else {
-            real[rng.below(real.len() as u64) as usize]
-        };
+    let mut scan_left = 0usize;
+    let mut scan_next = 0usize;
+    while h.len() < len {
+        // a scan in progress: put the next key of the universe
+        if scan_left > 0 && !keys.is_empty() && !puts.is_empty() {
+            let k = keys[scan_next % keys.len()];
+            scan_next += 1;
+            scan_left -= 1;
+            if let Some(o) = puts.iter().find(|o| o["op"] == "put" && o["k"].as_u64() == Some(k)) {
+                h.push((*o).clone());
+                continue;
+            }
+        }
+        if profile == 2 && rng.below(100) < 6 {
+            scan_left = 2 + rng.below(keys.len() as u64 + 2) as usize;
+            scan_next = rng.below(keys.len().max(1) as u64) as usize;
+            continue;
+        }
+        let pool: &Vec<&Value> = if !puts.is_empty() && rng.below(100) < 45 { &puts } else { &real };
+        let mut pick = pool[rng.below(pool.len() as u64) as usize];
+        // bias the key of keyed operations according to the profile (a few retries, then take what came)
+        for _ in 0..6 {
+            let ok = match profile {
+                1 => rng.below(100) >= 70 || key_ok(pick, &|k| hot.contains(&k)),
+                3 => {
+                    let lower = h.len() < len / 2;
+                    let mid = keys.get(keys.len() / 2).copied().unwrap_or(0);
+                    rng.below(100) < 10 || key_ok(pick, &|k| (k < mid) == lower)
+                }
+                _ => true,
+            };
+            if ok {
+                break;
+            }
+            pick = pool[rng.below(pool.len() as u64) as usize];
+        }
         // purge / resize(0) rarely
         if (pick["op"] == "purge" || (pick["op"] == "resize" && pick["n"] == 0)) && rng.below(100) < 85 {
             continue;
